@@ -712,16 +712,15 @@ def rule_literal(ctx):
             inv |= {c_name(x) for x in c_walk(n['inner'][1]) if c_name(x)}
     rets = [n for n in c_walk(body) if n.get('kind') == 'ReturnStmt' and n.get('inner')]
     r.inst('decoder:return', sample='returns %s ; input indexed by %s' % ([c_name(c_strip(x['inner'][0])) for x in rets], sorted(inv)))
-    for x in rets:
-        nm = c_name(c_strip(x['inner'][0]))
-        if nm not in inv:
-            r.violate('StringTools.__pyx_lzss_decompress:return', STC, decl[0].line,
-                      'the decoder returns %s, which is not the position in the compressed input (%s): the caller compares the result with compressed_length and rejects every stream' % (nm, '/'.join(sorted(inv))))
     # what a literal step does to the output: from the symbolic execution of the token step (see C12-EXTENT), not from the spelling of the store
     try:
         paths = _footprint(ctx)[2]
     except Unmodellable as x:
         raise AnalysisError('C12-LIT cannot model the token step of the decoder: %s' % x)
+    for clause, kind, msg in _footprint(ctx)[1]:
+        if clause == 'return-value':        # the value returned on the paths the compressor's streams take (an error exit such as `return 0` is not one of them)
+            r.violate('StringTools.__pyx_lzss_decompress:return', STC, decl[0].line, msg)
+            break
     lits = [p for p in paths if p[0] == 'literal']
     if not lits:
         r.violate('StringTools.__pyx_lzss_decompress:literal', STC, decl[0].line, 'no path of the token step stores an input byte into the output: literal tokens are not decoded')
@@ -905,6 +904,7 @@ class _TokState:
         self.trace = ()
         self.mem = {}            # ('M', n) -> offset read from the output
         self.returned = False
+        self.retval = None
         self.facts = {}          # decisions taken on conditions over values that cannot be enumerated (same value -> same decision later on)
 
     def clone(self):
@@ -912,6 +912,7 @@ class _TokState:
         c.env, c.dom, c.cons, c.lcons, c.writes = dict(self.env), dict(self.dom), list(self.cons), list(self.lcons), list(self.writes)
         c.src_read, c.trace, c.mem, c.returned = set(self.src_read), self.trace, dict(self.mem), self.returned
         c.facts = dict(self.facts)
+        c.retval = self.retval
         return c
 
     def domain(self, k):
@@ -1444,6 +1445,7 @@ class TokenExec:
             return out
         if k == 'ReturnStmt':
             st.returned = True
+            st.retval = self.ev(st, n['inner'][0]) if n.get('inner') else None
             return [(st, RET)]
         if k == 'BreakStmt':
             return [(st, BRK)]
@@ -1689,6 +1691,8 @@ def token_footprint(fdecl, paths=None):
             deps |= i['deps']
         by_asg = {}
         for i in infos:
+            deps |= {k for k, v in i['st'].dom.items() if len(v) == 1}        # bytes fixed on a path (a copy loop was run for each value): siblings are matched per value
+        for i in infos:
             asgs = i['st'].assignments(deps)
             if asgs is None:
                 raise Unmodellable('the footprint of a %s depends on %d input bytes: too many combinations' % (i['label'], len(deps)))
@@ -1715,6 +1719,12 @@ def token_footprint(fdecl, paths=None):
                 if a != true_adv:
                     problem('advance', kind, 'a %s that denotes %d byte(s) advances the output by %d when %d byte(s) of room are left: the result depends on the room, not on the token' % (label, true_adv, a, lo_r))
                     continue
+                if st.exit == RET:
+                    i['clauses'].add('return-value')
+                    want = st.env.get(Q[1]) if Q is not None else None
+                    if st.retval is None or want is None or st.simp(st.retval).key() != st.simp(want).key():
+                        problem('return-value', kind, 'after the %s that fills the output the decoder returns %s, which is not the position in the compressed input (%s): the caller compares '
+                                'the result with compressed_length and rejects every stream' % (label, 'nothing' if st.retval is None else repr(st.retval), Q[1] if Q else '?'))
                 if st.exit == RET and (hi is None or hi > a):
                     problem('stop', kind, 'after a %s that advances the output by %d the decoder returns although up to %s bytes of room were left (%d would be exactly full): '
                             'it stops before the output is complete' % (label, a, 'any number of' if hi is None else hi, a))
@@ -1836,7 +1846,8 @@ def rule_extent(ctx):
     if kinds != {'literal', 'back-reference'}:
         raise AnalysisError('C12-EXTENT: the token step of %s has paths for %s only (expected literal and back-reference tokens)' % (_DECODER, sorted(kinds)))
     for clause, kind, msg in problems:
-        r.violate('StringTools.%s:%s:%s' % (_DECODER, clause, kind), STC, decl[0].line, '%s: %s' % (_DECODER, msg))
+        if clause != 'return-value':        # reported by C12-LIT
+            r.violate('StringTools.%s:%s:%s' % (_DECODER, clause, kind), STC, decl[0].line, '%s: %s' % (_DECODER, msg))
     # positive control: a "wild copy" guarded only for the last token is reported, one whose guards leave room for the surplus (and keep source and destination apart) is not
     try:
         _, bad = token_footprint(asts[_DECODER + '_sa_pc'])
